@@ -1,7 +1,7 @@
 (* C10 - Injector signature follows the declaration.  (v1: context and error-result placement of the model signature) *)
 From Coq Require Import List Arith Bool NArith.
 Import ListNotations.
-Require Import Gen Bfs GenU CorrS.
+Require Import Gen Bfs GenU CorrS Resolve.
 
 (* context.Context is the first parameter whenever a needed (graph) provider is Async, and then appears exactly once *)
 Theorem C10_ctx_first : forall g, uhas_async g = true ->
@@ -25,3 +25,15 @@ Proof.
   - intros (n & Hn & Hf). exists n. split; auto. apply in_seq. simpl. split; auto with arith.
 Qed.
 Print Assumptions C10_error_result.
+
+(* For ALL accepted declarations: the argument parameters are one per type (never listed twice), only types that no
+   declared provider supplies, and every unsupplied type that a needed provider requires is among them. *)
+Theorem C10_params_unsupplied_once_complete : forall d g, unew_graph d = Gen.OK g -> exists pm, dpm d = Some (pm, uprovs g) /\
+  NoDup (uarg_types g) /\ (forall t, In t (uarg_types g) -> Gen.assoc t pm = None) /\
+  (forall c p t, uprov g c = Some p -> In t (Gen.requires p) -> Gen.assoc t pm = None -> In t (uarg_types g)).
+Proof. exact arg_nodes. Qed.
+Print Assumptions C10_params_unsupplied_once_complete.
+
+Theorem C10_signature_lists_each_type_once : forall d g, unew_graph d = Gen.OK g -> NoDup (uparams g).
+Proof. exact uparams_nodup. Qed.
+Print Assumptions C10_signature_lists_each_type_once.
